@@ -7,6 +7,7 @@ set -u
 wt=$1; patch=$2; demo=$3; dest=$4; shift 4
 export CARGO_NET_OFFLINE=true CARGO_TARGET_DIR=$wt/target
 cd "$wt" || exit 2
+mkdir -p "$wt/target"
 git checkout -q -- . && git clean -fdq -e target
 git apply "$patch" || { echo "SEED: patch does not apply"; exit 2; }
 cargo test --workspace --no-fail-fast --offline > "$wt/target/suite.log" 2>&1
